@@ -41,6 +41,9 @@ func runC08(c *core.Ctx) {
 	foldKeyRule(c, "C08.R4", 5)
 	c08R5(c)
 	c02R9(c, "C08.R6")
+	c18R1as(c, "C08.R7")
+	c18R2as(c, "C08.R8")
+	c02R4(c) // shared with C02 (reported as C02.R4): the trie is mutated only behind the per-connection bookkeeping
 }
 
 func c08R1(c *core.Ctx) { c08R1as(c, "C08.R1") }
